@@ -69,6 +69,9 @@ THE_E = z3.Int('the_election')             # the Election object being counted
 
 # saved copies of the candidates (E.rounds[n] = Candidates.copy() taken when round n+1 begins): each copy is an object
 # that is not a candidate of the election, carries its source's id and ballot order and the tally its source had then
+isBallotEq = z3.Function('isBallotEq', I, B)
+eq_toprank = z3.Function('eq_toprank', I, I)
+eq_mult = z3.Function('eq_mult', I, I)
 snap_iscopy = z3.Function('snap_iscopy', I, B)
 snap_n = z3.Function('snap_n', I, I)
 snap_src = z3.Function('snap_src', I, I)
@@ -455,6 +458,13 @@ def install_election(ex):
                 return SRef(base, z3.Int('the_rule'))
         if kind == 'model:rounds':
             return SRef('rounds', ref.t)
+        if kind == 'model:ballotsEqual':
+            # ballots with equal rankings (read by the Meek family only): abstract objects whose top rank is a non-empty
+            # group of valid candidate ids (A-profile) and whose multiplier is a whole number
+            from .l2 import mk_abs
+            n = z3.Int('n_ballots_equal')
+            st.assume(n >= 0)
+            return mk_abs(C, st, 'ref:balloteq', lambda t: isBallotEq(t), n, base='ballotsEqual', distinct=True, register=False)
         if kind == 'model:flag':
             return SBool(fresh_bool(field))      # a flag the model does not track: any value
         return None
@@ -471,6 +481,19 @@ def install_election(ex):
         return ex.split(z3.And(idx >= 0, idx < rnd), st, lambda s_: ex.ok(SRef('snap', z3.simplify(idx)), s_),
                         lambda s_: ex.exc('IndexError', s_))
     ex.hooks['pseudo_subscript'] = pseudo_subscript
+
+    def pseudo_getattr(v, attr, st, fr):
+        if v.cname == 'balloteq':
+            if attr == 'topRank':
+                sid = eq_toprank(v.t)
+                st.assume(seqlen(sid) >= 1)
+                return ex.ok(SRef('seq:int', sid), st)
+            if attr == 'multiplier':
+                from .arith import lift
+                st.assume(eq_mult(v.t) >= 1)
+                return ex.ok(SVal(lift(C, SInt(eq_mult(v.t)), st)), st)
+        return None
+    ex.hooks['pseudo_getattr'] = pseudo_getattr
 
     def setitem(c, i, v, st, fr):
         "record[key] = value for the header entries of the election record: not modelled (only the action list is)"
